@@ -41,6 +41,10 @@ CLAIMED = {
             "runtime monitor: random Write/Read/XORKeyStream/Reseed/Clone/Reset programs with re-chunked twins against a single-shot reference built on x/crypto blake2 XOFs and crypto/sha3; rejection-sampling reference for random.Int/Bits; reader sets with failing/short readers",
             "Every XOF output is compared with a single-shot reference and with a re-chunked twin; clones are observed after every operation; Write-after-Read must panic until Reseed; Reset judged on factory-made XOFs. random.Int must equal the first masked draw below the modulus of the recorded stream; random.New(readers) is re-chunked, bit-flipped and starved.",
             "x/crypto blake2b/blake2s XOF and crypto/sha3 SHAKE256 as primitives; recorded streams."),
+    "C10": ("fault_enumeration",
+            "runtime monitor: real Dealer + n real Verifiers (Pedersen and Rabin), malicious deals sealed through the real encryption path (verif hook), enumerated deal faults x response behaviours x justification kinds/sequences x timeout positions, per-observer deliveries in seeded orders; oracle = ground-truth ledger kept by the harness",
+            "Single deal faults and single response faults are enumerated exhaustively over verifier position (n=3,4; thorough to 6) and combined with every justification kind incl. two-step sequences (wrong-then-correct); multi-fault histories are sampled. After every delivered event the observer's DealCertified() is compared with the ledger: certified => >= t signed approvals or correctly justified complaints and no invalid justification ever processed; approvals only for good deals; forged/duplicate responses rejected; honest runs certify and any t certified deals recover the secret.",
+            "faults are known by construction; Ed25519 suite; the verif hook seals harness-chosen plaintexts with the dealer's keys."),
 }
 
 PENDING = {}
